@@ -38,6 +38,7 @@ def lower_modern_syntax(tree: ast.Module) -> ast.Module:
       * inside functions `x: T = e` -> `x = e` (local annotations carry no behaviour);
       * `list(map(f, xs))` -> `[f(t) for t in xs]`;
       * `np.<ufunc>(a, b, out=T)` used as a statement -> the store `T = a <op> b` it performs;
+      * comparisons and negated two-armed tests in one canonical spelling (class Canon below);
       * a module-level `P = re.compile(<literal>)` that is never re-bound: `P.search(s)` -> `re.search(<literal>, s)`;
       * `if (x := e) <op> ...:` / `y = f((x := e))`  ->  `x = e` before the statement, when the
         assignment expression is evaluated unconditionally (not under and/or, a conditional expression
@@ -169,6 +170,59 @@ def lower_modern_syntax(tree: ast.Module) -> ast.Module:
             return n
 
     tree = ast.fix_missing_locations(OutToStore().visit(tree))
+
+    def constlike(e: ast.expr) -> bool:
+        """no variable in it: literals, and calls like np.timedelta64(0) of literals"""
+        return not any((isinstance(x, ast.Name) and x.id not in ("np", "numpy", "math", "int", "float", "str", "bool", "len")) or (isinstance(x, ast.Attribute) and not (isinstance(x.value, ast.Name) and x.value.id in ("np", "numpy", "math"))) for x in ast.walk(e))
+
+    FLIPOP = {ast.Lt: ast.Gt, ast.Gt: ast.Lt, ast.LtE: ast.GtE, ast.GtE: ast.LtE}
+    POSOP = {ast.NotIn: ast.In, ast.IsNot: ast.Is, ast.NotEq: ast.Eq}
+
+    def positive(t: ast.expr):
+        """-> (test without an outer negation, True) if `t` was a negated test, else (t, False)"""
+        if isinstance(t, ast.UnaryOp) and isinstance(t.op, ast.Not):
+            return t.operand, True
+        if isinstance(t, ast.Compare) and len(t.ops) == 1 and type(t.ops[0]) in POSOP:
+            return ast.copy_location(ast.Compare(left=t.left, ops=[POSOP[type(t.ops[0])]()], comparators=t.comparators), t), True
+        return t, False
+
+    class Canon(ast.NodeTransformer):
+        """One spelling for tests that differ only in the way they are written:
+        * two-operand comparisons: a literal operand stands on the right (`0 < k` -> `k > 0`); two non-literal
+          operands are ordered with `<` / `<=` (`a >= b` -> `b <= a`) and, for `==` / `!=`, in text order;
+        * a two-armed `if` / conditional expression whose test is negated (`not c`, `not in`, `is not`, `!=`)
+          is written positively with the arms exchanged."""
+
+        def visit_Compare(self, n: ast.Compare):
+            self.generic_visit(n)
+            if len(n.ops) != 1:
+                return n
+            op, l, r = type(n.ops[0]), n.left, n.comparators[0]
+            cl, cr = constlike(l), constlike(r)
+            if op in FLIPOP:
+                if (cl and not cr) or (not cl and not cr and op in (ast.Gt, ast.GtE)):
+                    return ast.copy_location(ast.Compare(left=r, ops=[FLIPOP[op]()], comparators=[l]), n)
+            elif op in (ast.Eq, ast.NotEq):
+                if (cl and not cr) or (not cl and not cr and unparse(l) > unparse(r)):
+                    return ast.copy_location(ast.Compare(left=r, ops=[op()], comparators=[l]), n)
+            return n
+
+        def visit_If(self, n: ast.If):
+            self.generic_visit(n)
+            if n.orelse:
+                t, was_neg = positive(n.test)
+                if was_neg:
+                    n.test, n.body, n.orelse = t, n.orelse, n.body
+            return n
+
+        def visit_IfExp(self, n: ast.IfExp):
+            self.generic_visit(n)
+            t, was_neg = positive(n.test)
+            if was_neg:
+                n.test, n.body, n.orelse = t, n.orelse, n.body
+            return n
+
+    tree = ast.fix_missing_locations(Canon().visit(tree))
 
     # module-level compiled regular expressions: `_P = re.compile(r"...")` ... `_P.search(s)` -> `re.search(r"...", s)`
     compiled = {}
@@ -2244,6 +2298,10 @@ def emptiness_subject(test: ast.expr, fn: Optional[ast.AST] = None) -> Optional[
     """The container (expanded text) that `test` finds empty - for every spelling of "no elements":
     `len(L) == 0`, `0 == len(L)`, `not L`, `not len(L)`, `len(L) < 1`, `len(L) <= 0`, `1 > len(L)`, and the same
     through a local `n = len(L)`. None when the test is not such a test."""
+    if fn is not None:
+        direct = emptiness_subject(test, None)  # `not files` names the container itself
+        if direct is not None:
+            return direct
     t = expand_locals(test, fn) if fn is not None else test
 
     def length_of(e):
